@@ -150,9 +150,9 @@ def c15(tier, seed):
     sops = {"al", "rl", "sa", "sp", "sr", "sx", "st", "sc", "sm", "ss", "sd", "sn", "dp"}
     models = [{"module": "RemGen", "tag": "scoped", "invariants": RINV,
                "constants": rconsts(nodes=2 if quick else 3, removers=2 if quick else 3, disp=1, ops=sops if not quick else sops - {"sp"},
-                                    nest={"sr", "sx"} if quick else {"sr", "sx", "sd"})}]
+                                    nest={"sr", "sx", "rl"} if quick else {"sr", "sx", "sd", "rl"})}]
     models.append({"module": "RemGen", "tag": "scoped-lists", "invariants": RINV,
-                   "constants": rconsts(nodes=2 if quick else 3, removers=2, disp=1, ops=sops - {"sp"} if quick else sops, nest={"sr", "sx"}, evkeys=(1,))})
+                   "constants": rconsts(nodes=2 if quick else 3, removers=2, disp=1, ops=sops - {"sp"} if quick else sops, nest={"sr", "sx", "rl"}, evkeys=(1,))})
     worlds = [world("r_disp", obj=0, only_tags=["scoped"]), world("r_queue_multi_str", obj=1, threading=1, key=1, arg=1, fraction=0.35, fill="0xFF", only_tags=["scoped"]),
               world("r_disp_spin_incl", obj=0, threading=2, mode=1, key=2, fraction=0.2, fill="0x00", only_tags=["scoped"]),
               world("r_list_multi", obj=2, threading=1, only_tags=["scoped-lists"]),                 # ScopedRemover<CallbackList>
